@@ -32,20 +32,20 @@ Proof. exact inheap_iff_waiting. Qed.
 
 (* A client (naming a known bridge) is refused exactly when no proxy of its eligible pool is waiting,
    and then the answer is 'no proxies' and nothing else changes. *)
-Theorem C03_refusal_iff : forall v s n fp o ch s',
-  step v s (L_Client n fp o ch) = Some s' -> lookup fp (bridges s) <> None ->
+Theorem C03_refusal_iff : forall v s n ofp o ch s',
+  step v s (L_Client n ofp o ch) = Some s' -> lookup (fp_of ofp) (bridges s) <> None ->
   (ch = None <-> forall e, In e (entries s) -> eligible n e = false) /\
-  (ch = None -> done_clients s' = (next_cid s, n, fp, o, CNoProxies) :: done_clients s /\ entries s' = entries s).
+  (ch = None -> done_clients s' = (next_cid s, n, fp_of ofp, o, CNoProxies) :: done_clients s /\ entries s' = entries s).
 Proof. exact refusal_iff. Qed.
 
 (* The proxy a client is given is waiting, eligible, and has the smallest self-reported client count
    among all eligible waiting proxies. *)
-Theorem C03_least_loaded : forall v s n fp o p s',
-  step v s (L_Client n fp o (Some p)) = Some s' ->
+Theorem C03_least_loaded : forall v s n ofp o p s',
+  step v s (L_Client n ofp o (Some p)) = Some s' ->
   exists e, nth_error (entries s) p = Some e /\ eligible n e = true /\
     (forall e', In e' (entries s) -> eligible n e' = true -> e_clients e <= e_clients e') /\
     exists c, nth_error (entries s') p = Some (set_cl (Some c) (set_heap_live false (e_live e) e)) /\
-              c_nat c = n /\ c_fp c = fp /\ c_offer c = o /\ c_pc c = C_Send.
+              c_nat c = n /\ c_fp c = fp_of ofp /\ c_offer c = o /\ c_pc c = C_Send.
 Proof. exact least_loaded. Qed.
 
 (* The relational pool above is what the real data structure delivers: the broker's SnowflakeHeap is Go's
@@ -71,10 +71,10 @@ Proof. vm_compute. reflexivity. Qed.
 (* non-vacuity: with loads 5 and 2 waiting, the client is given the proxy with load 2 and cannot be given the other *)
 Example C03_example :
   let s0 := run V1 (init [(7, 9)]) [L_Poll 1 NatUnrestricted 1 5; L_Poll 2 NatUnrestricted 1 2] in
-  (exists s, s0 = Some s /\ step V1 s (L_Client NatRestricted 7 100 (Some 1%nat)) <> None /\
-             step V1 s (L_Client NatRestricted 7 100 (Some 0%nat)) = None /\
-             step V1 s (L_Client NatRestricted 7 100 None) = None /\
-             step V1 s (L_Client NatUnrestricted 7 100 None) <> None).
+  (exists s, s0 = Some s /\ step V1 s (L_Client NatRestricted (Some 7) 100 (Some 1%nat)) <> None /\
+             step V1 s (L_Client NatRestricted (Some 7) 100 (Some 0%nat)) = None /\
+             step V1 s (L_Client NatRestricted (Some 7) 100 None) = None /\
+             step V1 s (L_Client NatUnrestricted (Some 7) 100 None) <> None).
 Proof. eexists. split; [vm_compute; reflexivity|]. repeat split; vm_compute; congruence. Qed.
 
 (* Absent/empty NAT on the wire (C12's decoders) composed with the pool selection: a client that sends no NAT
